@@ -51,7 +51,14 @@ above so that the baseline is exit 0):
       MaxUint64 sentinel not filtered for plain subscribers ......... exit 1  sentinel-delivered
       medium broadcasts twice with KeepLatestPublication ............ exit 1  duplicate
       queue writer takes two messages and broadcasts the newer first  exit 1  order
+      (seeded) waitSendPub: sentinel at the head of a delay window no longer broadcast at once, coalesced away by a
+               publication queued behind it ........................... exit 1  position-loss-not-ended (aimed scenario 1:
+               Publish 1,2; Drop 2; +50 s; TickOne(first) -> sentinel queued; Deliver 1; WriterTick)
+      (seeded) CheckPosition bumps positionCheckTime on skipped requests too: staggered connections starve the check
+               ........................................................ exit 1  position-loss-not-ended (aimed scenario 2:
+               +50 s TickOne(A) performed; +12 s TickOne(B) skipped; Publish 1; Drop 1; +38 s TickOne(A) must be performed)
 """
+import json
 import re
 from concurrent.futures import ThreadPoolExecutor
 
@@ -176,20 +183,31 @@ def c13(c):
 def c38(c):
     quick = c.tier == 'quick'
     c._specdir('Medium')
-    with ThreadPoolExecutor(max_workers=3) as ex:
+    with ThreadPoolExecutor(max_workers=5) as ex:
         # 1. design: exhaustive TLC, asynchronous goroutines delayed arbitrarily (Urgent = FALSE)
         f1 = ex.submit(c.tlc_exhaustive, 'Medium', 'Medium', 'quick.cfg' if quick else 'thorough.cfg', workers=4, timeout=3000)
         #    two positioned subscribers with the shared position check (first caller's position decides)
-        f2 = ex.submit(c.tlc_exhaustive, 'Medium', 'Medium', 'quick_p2.cfg' if quick else 'thorough_p2.cfg', workers=4, timeout=3000)
+        #    (thorough tier; the quick tier has two positioned subscribers in the explicit-clock configuration below)
+        f2 = None if quick else ex.submit(c.tlc_exhaustive, 'Medium', 'Medium', 'thorough_p2.cfg', workers=4, timeout=3000)
         # 2. behaviours for the replay (Urgent = TRUE)
         f3 = ex.submit(c.tlc, 'Medium', 'MediumSim', 'sim.cfg', simulate=120 if quick else 1500, depth=24, timeout=3000)
+        #    explicit clock: per-connection ticks, positionCheckTime moved by performed checks only
+        f4 = ex.submit(c.tlc_exhaustive, 'Medium', 'Medium', 'timed_quick.cfg' if quick else 'timed.cfg', workers=4, timeout=3000)
+        #    aimed behaviours (scripted schedules: sentinel first in a delay window then a publication; staggered ticks)
+        f5 = ex.submit(c.tlc, 'Medium', 'MediumAim', 'aim.cfg', simulate=150 if quick else 600, depth=40, timeout=3000)
         r = f1.result()
         c.log('TLC exhaustive (1 positioned + 1 plain subscriber, all option sets): %d distinct / %d generated, depth %d' % (r['distinct'], r['states'], r['depth']))
-        r = f2.result()
-        c.log('TLC exhaustive (2 positioned subscribers, shared position check): %d distinct / %d generated, depth %d' % (r['distinct'], r['states'], r['depth']))
+        if f2 is not None:
+            r = f2.result()
+            c.log('TLC exhaustive (2 positioned subscribers, shared position check): %d distinct / %d generated, depth %d' % (r['distinct'], r['states'], r['depth']))
         s = f3.result()
+        r = f4.result()
+        c.log('TLC exhaustive (explicit clock, 2 positioned subscribers): %d distinct / %d generated, depth %d' % (r['distinct'], r['states'], r['depth']))
+        a = f5.result()
     if not s['ok']:
         raise vf.Inconclusive('simulation failed: %s\n%s' % (s['error'], s['out'][-2000:]))
+    if not a['ok']:
+        raise vf.Inconclusive('aimed simulation failed: %s\n%s' % (a['error'], a['out'][-2000:]))
     binp = c.go_build('medium')
     behs = c.behaviours(s)
     c.log('TLC simulate: %d behaviours' % len(behs))
@@ -202,15 +220,38 @@ def c38(c):
     c.cov['replay_counters'] = res['counters']
     if res['completed'] == 0 and not res['violations']:
         raise vf.Inconclusive('no behaviour completed on the real node')
+    # aimed, timed behaviours: manual client timers (Config.ClientTimerScheduler), check delay 40 s, injected clocks
+    abehs = c.behaviours(a)
+    seen, uniq = set(), []
+    for b in abehs:                      # the script is deterministic: one behaviour per initial state
+        key = json.dumps([b[0]['scen'], b[0]['fst'], b[0]['opts']], sort_keys=True)
+        if key not in seen:
+            seen.add(key)
+            uniq.append(b)
+    c.log('TLC simulate (aimed): %d behaviours, %d distinct (scenario, first connection, options)' % (len(abehs), len(uniq)))
+    if not any(b[0]['scen'] == 1 and b[0]['opts']['shared'] and b[0]['opts']['delay'] for b in uniq) or \
+       not any(b[0]['scen'] == 2 and b[0]['opts']['shared'] for b in uniq):
+        raise vf.Inconclusive('the aimed behaviours do not cover both scenarios with the shared position check')
+    ares = c.harness(binp, 'mdreplay', {'qmax': 1, 'manual': True, 'behaviours': uniq}, timeout=900)
+    c.absorb(ares)
+    c.cov['traces_validated_against_impl'] += ares['completed']
+    c.cov['evaluations'] += ares['executed']
+    c.cov['distinct_nontrivial'] += ares['nontrivial']
+    c.cov['aimed_counters'] = ares['counters']
+    c.cov['samples'] += (ares['samples'] or [])[:1]
     c.cov['rule'] = ('behaviours: TLC -simulate of MediumSim (option set chosen in Init; 3 subscribers p1, p2 positioned, n plain) replayed on a real node with '
                      'GetChannelMediumOptions, cl.GateBroker withholding / dropping / reordering deliveries, the queue writer held inside a broadcast through the '
                      'LogHandler trace entry, broadcast delay 300 ms real, position checks triggered by advancing the injected clocks; '
+                     'aimed behaviours (MediumAim: sentinel first in a broadcast-delay window followed by a late delivery; two connections ticking 12 s apart with a 40 s '
+                     'check delay on a quiet channel) for every option set, replayed with manual client timers and the injected clocks advanced by the script; '
                      'non-trivial = completed behaviour with a dropped delivery, a queue-full drop, a parked writer, a coalescing delay tick or a non-valid position check; distinct by (options, steps)')
     c.assumptions += ['client-side subscriptions, JSON protocol, one channel per behaviour, one node',
                       'asynchronous insufficient-state goroutines and the queue writer run before the next scheduled step (Urgent); schedules in which the writer races the '
                       'unsubscribes its own broadcast spawned are explored by TLC only',
                       'with SharedPositionSync the replay ticks only when all live positioned subscribers hold the same position (which connection reaches the medium first cannot be scheduled)',
                       'a first subscriber arriving before the dissolver closed the previous medium object is not modelled',
+                      'aimed (explicit-clock) behaviours never tick after a delivery: writePublicationUpdatePosition stamps positionCheckTime with the wall clock, not the injected one',
+                      'the end of a periodic tick is observed through the repository hook verifGate("tick:done") (build tag verif)',
                       'delta compression (the use of latestPublication as delta base) is outside this spec (C14)']
 
 
@@ -220,6 +261,8 @@ _note13 = ('Bounds: exhaustive 2 keys, join/leave, <=4 adds (5 thorough), MaxSiz
            'stale timer goroutines included; split-Add model: 2 producers, <=3 adds, 1 removal. Replay: 200 (3000) simulated behaviours of <=10 adds; 60 (600) recorded traces of 16 adds. '
            'Trusted: TLC, lib/tlaparse.py, the harness monitors, runtime timers.')
 _note38 = ('Bounds: exhaustive 12 option sets, <=2 publications (3 thorough), 1 wire fault, 1 position check, 1 resubscribe, queue limit 1 byte (1-byte payloads), subscribers {p1,n} and {p1,p2}; '
+           'explicit-clock configuration: 2 positioned subscribers, check delay 40 s, clock steps {12,50} ({12,38,50} thorough), <=3 (4) per-connection ticks; '
+           'aimed behaviours: 2 scripted schedules x 2 first connections x 12 option sets; '
            'replay: 120 (1500) simulated behaviours with 3 subscribers, <=6 publications, 2 wire faults, 2 position checks. Trusted: TLC, lib/tlaparse.py, harness projection/monitor code, cl library.')
 META = {
     'C13': dict(level='model_checking',
